@@ -531,6 +531,12 @@ def run_search_no_early_none(prog, tier, repo):
                     src = callee(sd[2])
             if src and src[0] in search:
                 continue
+            # harmless when nothing is searched after it: the early `None` then equals the `None` the function would return anyway
+            cfgb = cfg_of(b)
+            after = cfgb.reachable(t[5]) if t[5] is not None else set()
+            if not any(not b.blocks[x].cleanup and b.blocks[x].term[0] == 'call' and callee(b.blocks[x].term)[0] in search
+                       for x in after):
+                continue
             bad.append((t[7], (src[1] if src and src[1] else 'a local value')))
         key = f'search:{b.name}'
         if bad:
